@@ -233,12 +233,69 @@ fn check_stream(name: &str) -> Option<String> {
         _ => Some(format!("{desc} expected=known scenario actual=unknown")),
     }
 }
+/// API level, single thread: every sequence of sender operations up to `depth` over two sender handles (the second
+/// one is a clone), then every handle dropped and the response written.  Reference model written from the property: an
+/// event handed to a connected sender is delivered exactly once, in sending order (across the handles); a disconnected or
+/// never-created handle delivers nothing; the stream ends after the last handle is gone.
+#[derive(Clone, Copy, Debug, PartialEq)]
+enum SOp { Send1, Send2, Clone1, Disc1, Disc2, Drop1, Drop2 }
+fn check_api(ops: &[SOp]) -> Option<String> {
+    let desc = format!("api ops={}", ops.iter().map(|o| format!("{o:?}")).collect::<Vec<_>>().join(","));
+    let (s1, resp) = Response::event_stream();
+    let mut h1 = Some(s1); let mut h2: Option<servlin::EventSender> = None;
+    let (mut m1, mut m2) = (true, false);   // model: handle exists and is connected
+    let mut want: Vec<(Option<String>, String)> = Vec::new();
+    let mut k = 0;
+    for op in ops {
+        match op {
+            SOp::Send1 | SOp::Send2 => {
+                let first = *op == SOp::Send1;
+                let d = format!("e{k}"); k += 1;
+                let (h, m) = if first { (&mut h1, m1) } else { (&mut h2, m2) };
+                if let Some(s) = h.as_mut() {
+                    if s.is_connected() != m { return Some(format!("{desc} expected=is_connected={m} before send actual={}", s.is_connected())); }
+                    s.send(Event::Message(d.clone()));
+                    if m { want.push((None, d)); }
+                    if s.is_connected() != m { return Some(format!("{desc} expected=is_connected={m} after send actual={}", s.is_connected())); }
+                }
+            }
+            SOp::Clone1 => { if let Some(s) = h1.as_ref() { h2 = Some(s.clone()); m2 = m1; } }
+            SOp::Disc1 => { if let Some(s) = h1.as_mut() { s.disconnect(); m1 = false; } }
+            SOp::Disc2 => { if let Some(s) = h2.as_mut() { s.disconnect(); m2 = false; } }
+            SOp::Drop1 => { h1 = None; m1 = false; }
+            SOp::Drop2 => { h2 = None; m2 = false; }
+        }
+    }
+    drop(h1); drop(h2);
+    let mut w = verif_replay::RecWriter::new();
+    let r = std::panic::catch_unwind(std::panic::AssertUnwindSafe(|| verif_replay::block_on(servlin::internal::write_http_response(&mut w, &resp, false))));
+    match r { Ok(Ok(())) => {} other => return Some(format!("{desc} expected=response written actual={:?}", other.map(|x| x.is_ok()))) }
+    let p = match w.out.windows(4).position(|x| x == b"\r\n\r\n") { Some(p) => p, None => return Some(format!("{desc} expected=head actual=none")) };
+    let mut rest = &w.out[p + 4..];
+    let mut chunks = Vec::new();
+    loop {
+        let e = match rest.windows(2).position(|x| x == b"\r\n") { Some(e) => e, None => return Some(format!("{desc} expected=terminating chunk actual=body ends early")) };
+        let n = match usize::from_str_radix(std::str::from_utf8(&rest[..e]).unwrap_or("x"), 16) { Ok(n) => n, Err(_) => return Some(format!("{desc} expected=chunk size actual=garbage")) };
+        rest = &rest[e + 2..];
+        if n == 0 { if rest != b"\r\n" { return Some(format!("{desc} expected=nothing after the terminating chunk actual={} bytes", rest.len())); } break; }
+        if rest.len() < n + 2 { return Some(format!("{desc} expected=whole chunk actual=truncated")); }
+        chunks.push(rest[..n].to_vec()); rest = &rest[n + 2..];
+    }
+    let got = match fields_of(&chunks) { Ok(g) => g, Err(e) => return Some(format!("{desc} expected=whole field lines actual={e}")) };
+    let wantf = want_of(&want);
+    if got != wantf { return Some(format!("{desc} expected={} events once each in sending order actual={:?}", want.len(), got.iter().map(|x| x.1.clone()).collect::<Vec<_>>())); }
+    None
+}
 fn main() {
     std::panic::set_hook(Box::new(|_| {}));
     let args: Vec<String> = std::env::args().collect();
     if args.len() >= 3 && args[1] == "replay" {
         let w = args[2..].join(" ");
         let field = |k: &str| w.split(k).nth(1).map(|x| x.split(' ').next().unwrap_or("").to_string());
+        if w.starts_with("api ") {
+            let ops: Vec<SOp> = field("ops=").unwrap_or_default().split(',').filter(|x| !x.is_empty()).map(|x| match x { "Send1" => SOp::Send1, "Send2" => SOp::Send2, "Clone1" => SOp::Clone1, "Disc1" => SOp::Disc1, "Disc2" => SOp::Disc2, "Drop1" => SOp::Drop1, _ => SOp::Drop2 }).collect();
+            match check_api(&ops) { Some(m) => { println!("WITNESS {m}"); std::process::exit(1) } None => { println!("OK witness no longer fails"); std::process::exit(0) } }
+        }
         let r = if w.starts_with("event ") { let t = field("type=").unwrap(); let ty = if t == "-" { None } else { Some(unhex(&t)) }; check_event(ty.as_deref(), &unhex(&field("data=").unwrap())) }
             else if w.starts_with("custom ") { check_custom(&unhex(&field("type=").unwrap())) }
             else { check_stream(&field("scenario=").unwrap()) };
@@ -261,6 +318,15 @@ fn main() {
         for ty in [None, Some("ty")] { n += 1; if let Some(m) = check_event(ty, d) { if found.len() < 6 { found.push(m) } } }
     }
     for ty in ["", "t", "a b", "a:b", "a\rb", "a\nb", "\r", "\n", "a\r\n", "\u{e9}", "x\u{2028}"] { n += 1; if let Some(m) = check_custom(ty) { if found.len() < 6 { found.push(m) } } }
+    let alpha_ops = [SOp::Send1, SOp::Send2, SOp::Clone1, SOp::Disc1, SOp::Disc2, SOp::Drop1, SOp::Drop2];
+    let depth = if thorough { 6 } else { 5 };
+    for len in 0..=depth { for code in 0..alpha_ops.len().pow(len as u32) {
+        let mut c = code; let ops: Vec<SOp> = (0..len).map(|_| { let o = alpha_ops[c % alpha_ops.len()]; c /= alpha_ops.len(); o }).collect();
+        n += 1; if let Some(m) = check_api(&ops) { if found.len() < 6 { found.push(m) } }
+    }}
+    // a sender that overruns the queue of 50 without anybody reading is disconnected from then on
+    { n += 1; let (mut s, _resp) = Response::event_stream(); for i in 0..60 { s.send(Event::Message(format!("o{i}"))); }
+      if s.is_connected() { if found.len() < 6 { found.push("api overrun expected=disconnected after 60 unread events actual=connected".to_string()) } } }
     for sc in ["order", "content", "burst", "bigburst", "hugeburst", "two-senders", "overrun"] { n += 1; if let Some(m) = check_stream(sc) { if found.len() < 6 { found.push(m) } } }
     println!("EVALUATED {n}");
     for f in &found { println!("WITNESS {f}"); }
